@@ -58,11 +58,16 @@ BINARIZER_VAL = Val(tags=["callable", "binarizer", "truthy"], const=("fn", "bina
 class World:
     """One abstract bandit (a configuration): the heap after MAB.__init__ and runners for the public entry points."""
 
-    def __init__(self, prog: Program, config: Config, forget=None):
+    def __init__(self, prog: Program, config: Config, forget=None, typestate=False):
         self.prog = prog
         self.config = config
         self.eng = Engine(prog)
+        self.eng.typestate_mode = typestate
         self.forget = set(forget or ())      # (class name, field) pairs rebound outside construction
+        if typestate:
+            self.forget = {(c, f) for (c, f) in self.forget if f not in ("binarizer", "is_contextual_binarized",
+                                                                          "rewards", "raw_rewards",
+                                                                          "arm_to_leaf_to_rewards")}
         self.init_trace = None
         self.mab_oid = None
         self.skeleton: Optional[Heap] = None
@@ -265,9 +270,9 @@ class SimWorld(World):
 
     SIM_CLASS = {"Radius": "_RadiusSimulator", "KNearest": "_KNearestSimulator", "LSHNearest": "_LSHSimulator"}
 
-    def __init__(self, prog: Program, config: Config, forget=None, is_quick=None):
+    def __init__(self, prog: Program, config: Config, forget=None, is_quick=None, typestate=False):
         self.is_quick = is_quick
-        super().__init__(prog, config, forget)
+        super().__init__(prog, config, forget, typestate=typestate)
 
     def _build(self):
         super()._build()
